@@ -4,7 +4,7 @@
    in the initial state (Example C19_initial_wf) and an idle state is one with no registered session cache. *)
 From Coq Require Import List Bool Arith.
 Import ListNotations.
-Require Import PonyV.Model.C19Txn PonyV.Proofs.C19Base PonyV.Proofs.C19Proofs2 PonyV.Proofs.C19Proofs3.
+Require Import PonyV.Model.C19Txn PonyV.Proofs.C19Base PonyV.Proofs.C19Proofs2 PonyV.Proofs.C19Proofs3 PonyV.Proofs.C19CrunchNF PonyV.Proofs.C19NoFault.
 
 (* However a session ends: for every session shape, every body (any operations, the body may catch exceptions and go on,
    may commit / roll back in the middle, may raise) and every fault oracle (any set of DB-API calls raising), a session
@@ -48,9 +48,29 @@ Theorem C19_progress_threads : forall orc sh schedule i exc sh',
 Proof. intros orc sh schedule i exc sh' g. apply exit_frees. apply grun_inv. apply GInv_init. Qed.
 Print Assumptions C19_progress_threads.
 
+(* Later sessions never fail because of an earlier session: after ANY sequence of sessions with ANY faults, a session in which
+   no DB-API call fails any more (oracle false from the current call index on) and whose body does not itself raise
+   (benign: every operation except `raise`) succeeds - result Ok, lock free, idle again.  (Holds since /repo 54964b5; before it,
+   a failed connection initialisation poisoned the pool: see known_findings/C19.json, "fixed".) *)
+Theorem C19_following_session_succeeds : forall oracle sessions s sh body,
+  WF s -> k_reg s = false -> lock s = false ->
+  forallb (fun oc => benign (fst oc)) body = true ->
+  exists r1 s1, run_sessions oracle sessions s = (r1, s1) /\
+    ((forall n, ncall s1 <= n -> oracle n = false) ->
+     exists s2, run_session oracle sh body s1 = (Ok, s2) /\ lock s2 = false /\ k_reg s2 = false).
+Proof. exact following_session_lemma. Qed.
+Print Assumptions C19_following_session_succeeds.
+
 (* the premises are satisfiable: the initial state is well formed, idle, lock free *)
 Example C19_initial_wf : forall sh, WF (set_sess sh st_empty) /\ k_reg (set_sess sh st_empty) = false /\ lock (set_sess sh st_empty) = false.
 Proof. intros sh. split; [apply WF_st_empty | split; reflexivity]. Qed.
+
+(* non-vacuity of the last theorem: the connection initialisation fails (call 1), later nothing fails: the next session works *)
+Example C19_following_nonvacuous :
+  let o := faults_oracle [1] in
+  let s1 := snd (run_sessions o [(ShImm, [(ORawWrite, false)])] st_empty) in
+  ncall s1 = 3 /\ p_has s1 = false /\ closed s1 = [0] /\ fst (run_session o ShSer [(OForUpd, false); (ONew, false); (OLink, false)] s1) = Ok.
+Proof. vm_compute. repeat split. Qed.
 
 (* non-vacuity: an immediate session whose COMMIT (call 7) and the following rollback (call 8) both fail ends with the
    connection closed once, the lock free, CommitException *)
